@@ -251,8 +251,8 @@ def run(scn: Dict[str, Any]) -> UdpRun:
                     await b.__aenter__()
                 elif kind == "aexit":
                     if st.get("exc"):
-                        ecls = {"cancelled": asyncio.CancelledError, "keyboard": KeyboardInterrupt, "base": BodyBaseError,
-                                }.get(st.get("exc_kind"), BodyError)
+                        from .tcp_exec import body_exception_class
+                        ecls = body_exception_class(st.get("exc_kind"))
                         e = ecls("body failed")
                         await b.__aexit__(ecls, e, None)
                     else:
